@@ -450,7 +450,9 @@ def build_config(cfg, sampler=None):
             cls = _USER_CONFIG_CLS[L.BootstrapConfig] = type("UserBootstrapConfig", (L.BootstrapConfig,), {})
     # the documented field order is part of the public interface: every third configuration (chosen by its content,
     # so that it is a function of the scenario) is built positionally
-    if (vals[0] + len(str(vals[1])) + len(str(vals[3]))) % 3 == 0:
+    if vals[0] % 7 == 3:
+        vals = (np.int64(vals[0]),) + vals[1:]  # a count that comes out of NumPy arithmetic (every seventh configuration, by content)
+    if (int(vals[0]) + len(str(vals[1])) + len(str(vals[3]))) % 3 == 0:
         out = cls(*vals)
     else:
         out = cls(nb_samples=vals[0], bootstrap_method=vals[1], sampling_method=vals[2], stratified_sampling=vals[3],
